@@ -4,15 +4,15 @@ package retransmission
 
 // Verification hook (build tag verif): re-exports existing unexported state only.
 
-// VerifBackoffState returns the schedule state of a BackoffStrategy. It takes
+// VerifC17BackoffState returns the schedule state of a BackoffStrategy. It takes
 // no lock: call it only when no Tick is in flight.
-func VerifBackoffState(bos *BackoffStrategy) (tickCounter, delay, retransmitTick uint64) {
+func VerifC17BackoffState(bos *BackoffStrategy) (tickCounter, delay, retransmitTick uint64) {
 	return bos.tickCounter, bos.delay, bos.retransmitTick
 }
 
-// VerifHandlerCount returns the number of handlers currently registered in the
+// VerifC17HandlerCount returns the number of handlers currently registered in the
 // ticker (ScheduleRetransmissions registers its handler asynchronously).
-func VerifHandlerCount(t *Ticker) int {
+func VerifC17HandlerCount(t *Ticker) int {
 	t.handlersMutex.Lock()
 	defer t.handlersMutex.Unlock()
 	return len(t.handlers)
